@@ -24,7 +24,12 @@ type verifC17File struct{ rd io.Reader }
 
 func (f *verifC17File) MakeReadable() error                { return nil }
 func (f *verifC17File) Read(p []byte) (int, error)         { return f.rd.Read(p) }
-func (f *verifC17File) Close() error                       { return nil }
+func (f *verifC17File) Close() error {
+	if c, ok := f.rd.(io.Closer); ok {
+		return c.Close()
+	}
+	return nil
+}
 func (f *verifC17File) Readdirnames(int) ([]string, error) { return nil, nil }
 func (f *verifC17File) Stat() (*fs.ExtendedFileInfo, error) {
 	return &fs.ExtendedFileInfo{}, nil
@@ -113,6 +118,29 @@ func VerifC17RealWorker(factory restic.ChunkerFactory, files []io.Reader) []Veri
 		up.mu.Lock()
 		up.blobs = map[restic.ID][]byte{}
 		up.mu.Unlock()
+	}
+	s.TriggerShutdown()
+	_ = wg.Wait()
+	return out
+}
+
+// VerifC17ConcWorkers runs the unmodified pipeline newFileSaver -> worker -> saveFile with
+// `workers` file workers and the repository's chunker factory; all files are submitted at once, so
+// several workers chunk at the same time (the harness' readers decide the interleaving).
+func VerifC17ConcWorkers(factory restic.ChunkerFactory, workers uint, files []io.Reader) []VerifC17Result {
+	wg, ctx := errgroup.WithContext(context.Background())
+	up := &verifC17Saver{blobs: map[restic.ID][]byte{}}
+	s := newFileSaver(ctx, wg, up, factory, workers)
+	s.NodeFromFileInfo = func(_, _ string, meta toNoder, ign bool) (*data.Node, error) {
+		return meta.ToNode(ign, func(string, ...any) {})
+	}
+	futures := make([]futureNode, len(files))
+	for i, rd := range files {
+		futures[i] = s.Save(ctx, "/f", "f", &verifC17File{rd}, func() {}, func() {}, func(*data.Node, ItemStats) {})
+	}
+	out := make([]VerifC17Result, len(files))
+	for i := range files {
+		out[i] = verifC17Collect(up, futures[i].take(ctx))
 	}
 	s.TriggerShutdown()
 	_ = wg.Wait()
